@@ -2,7 +2,10 @@
 # MANIFEST.setup_cmd: offline pre-build of the stable lane of the harness from files on disk
 # only (the sanitizer lanes build on first use; each check rebuilds incrementally anyway).
 set -e
-cd "$(dirname "$0")/harness"
+here="$(cd "$(dirname "$0")" && pwd)"
+cd "$here/harness"
 export RUSTUP_TOOLCHAIN=stable-x86_64-unknown-linux-gnu CARGO_NET_OFFLINE=true
 export CARGO_TARGET_DIR=/verif/target/stable
 cargo build --release --offline --workspace 2>&1 | tail -3
+# remember which content of /repo this lane was built from (see scripts/tree_sig.py)
+python3 "$here/scripts/tree_sig.py" mark "$CARGO_TARGET_DIR"
